@@ -66,7 +66,8 @@ func H_C08_multidim() {
 
 // H_C08_depth3: arrays of arrays of arrays.
 func H_C08_depth3() {
-	shape := verif.Choose("shape", 4)
+	shape := verif.Choose("shape", 6)
+	alias := verif.Choose("alias", 2) // SELECT a / SELECT a AS k
 	mix := verif.Choose("mix", 2)
 	x, y, z := verif.F64("x"), verif.F64("y"), verif.F64("z")
 	verif.Assume(verif.All(x == x, y == y, z == z))
@@ -84,12 +85,22 @@ func H_C08_depth3() {
 		n = []any{[]any{r(x)}, []any{[]any{r(y)}, []any{r(z)}}}
 	case 3:
 		n = []any{[]any{[]any{}, []any{r(x)}}, []any{}, []any{[]any{r(y)}, []any{r(z), r(x)}}}
+	case 4:
+		// one level holds an inner array and, after it, a plain row
+		n = []any{[]any{[]any{r(x), r(y)}, r(z)}, []any{[]any{r(x)}}}
+	case 5:
+		// the same with the row first
+		n = []any{[]any{r(z), []any{r(x), r(y)}}, []any{[]any{r(x)}}}
 	}
 	from := "n"
 	if mix == 1 {
 		from = "`mix=>n`"
 	}
-	got, ok := runQuery(Map{"n": n}, verif.SQL("SELECT a FROM "+from+" WHERE a > ?", c))
+	col, key := "a", "a"
+	if alias == 1 {
+		col, key = "a AS k", "k"
+	}
+	got, ok := runQuery(Map{"n": n}, verif.SQL("SELECT "+col+" FROM "+from+" WHERE a > ?", c))
 	if !ok {
 		return
 	}
@@ -105,17 +116,17 @@ func H_C08_depth3() {
 				leaf = false
 			}
 		}
-		if leaf {
-			for _, e := range v {
-				if a := f64of(e.(Map)["a"]); a > c {
-					out = append(out, Map{"a": a})
-					flat = append(flat, Map{"a": a})
-				}
-			}
-			return out
-		}
+		_ = leaf
+		// arrays recurse, rows are filtered and projected where they stand
 		for _, e := range v {
-			out = append(out, walk(e.([]any)))
+			if arr, isArr := e.([]any); isArr {
+				out = append(out, walk(arr))
+				continue
+			}
+			if a := f64of(e.(Map)["a"]); a > c {
+				out = append(out, Map{key: a})
+				flat = append(flat, Map{key: a})
+			}
 		}
 		return out
 	}
